@@ -24,6 +24,8 @@ EXPLANATION = (
 
 
 def run(ctx: Ctx) -> None:
+    from .c11 import rule_inverse_blocks
+    rule_inverse_blocks(ctx)
     from ..rules import memo as _memo
     _memo.rule_memo_sound(ctx, ['graphiq/solvers/time_reversed_solver.py', 'graphiq/backends/stabilizer/functions/stabilizer.py'])
     repo = ctx.repo
